@@ -1,0 +1,215 @@
+//go:build verif
+
+package align
+
+// Contracts of the pairwise local aligner, part 2 (property C09): SCORE VALUES.
+// The structural contracts are in zz_contracts_sw_verif.go. Comments only.
+
+// ---- the scoring scheme ----
+// every score of the scheme is a finite number
+//@ pure func c9b_fin(a *pwaligner) bool = isfin(a.gapopen) && isfin(a.gapextend) && isfin(a.match) && isfin(a.mismatch) && (a.submatrix != nil ==> forall p, q :: 0 <= p && p < len(a.submatrix) && 0 <= q && q < len(a.submatrix) ==> isfin(a.submatrix[p][q]))
+// hypothesis of all score clauses: finite scores, extending a gap is not rewarded
+//@ pure func c9b_on(a *pwaligner) bool = c9b_fin(a) && fin(a.gapextend) <= 0.0
+// substitution score of residue i of the first sequence against residue j of the second one (what matchScore returns)
+//@ pure func c9b_s(a *pwaligner, i int, j int) real = fin(a.submatrix != nil ? a.submatrix[cpos(a, a.seq1, i)][cpos(a, a.seq2, j)] : (a.seq1.sequence[i] != a.seq2.sequence[j] ? a.mismatch : a.match))
+//@ pure func c9b_max(x real, y real) real = (x >= y ? x : y)
+
+// ---- the published recurrence (Smith-Waterman with Gotoh's affine gaps), over the two sequences ----
+// a gap of k residues scores gapopen + (k-1)*gapextend.
+// c9b_dp(a, 0, i, j) = H(i,j): best score of a local alignment ending in residues i and j (0 outside the matrix)
+//     H(i,j) = max(0, H(i-1,j-1) + s(i,j), E(i,j), F(i,j))
+// c9b_dp(a, 1, i, j) = E(i,j): best score of an alignment ending in a gap that consumes residues ..i of sequence 1 in column j
+//     E(1,j) = H(0,j) + open;  E(i,j) = max(E(i-1,j) + extend, H(i-1,j) + open)      (no such gap in row 0: neutral value 0)
+// c9b_dp(a, 2, i, j) = F(i,j): the same along sequence 2
+//     F(i,1) = H(i,0) + open;  F(i,j) = max(F(i,j-1) + extend, H(i,j-1) + open)      (no such gap in column 0: neutral value 0)
+// (one function with a selector because spec functions cannot be mutually recursive)
+//@ pure func c9b_dp(a *pwaligner, k int, i int, j int) real = (i < 0 || j < 0 ? 0.0 : (k == 0 ? c9b_max(0.0, c9b_max(c9b_dp(a, 0, i-1, j-1) + c9b_s(a, i, j), c9b_max(c9b_dp(a, 1, i, j), c9b_dp(a, 2, i, j)))) : (k == 1 ? (i == 0 ? 0.0 : (i == 1 ? c9b_dp(a, 0, 0, j) + fin(a.gapopen) : c9b_max(c9b_dp(a, 1, i-1, j) + fin(a.gapextend), c9b_dp(a, 0, i-1, j) + fin(a.gapopen)))) : (j == 0 ? 0.0 : (j == 1 ? c9b_dp(a, 0, i, 0) + fin(a.gapopen) : c9b_max(c9b_dp(a, 2, i, j-1) + fin(a.gapextend), c9b_dp(a, 0, i, j-1) + fin(a.gapopen)))))))
+
+// ---- what fillMatrix_SW leaves in the tables (old = entry of fillMatrix_SW: sequences and scheme are not modified) ----
+// facts about cell (i,j), selected by w:
+//   w == 0: it holds the value of the recurrence
+//   w == 1: the running maximum dominates it
+//   w == 2: if it is positive, its trace names a term of the recurrence that attains it
+//@ pure func c9b_cell(a *pwaligner, w int, i int, j int) bool = (w == 0 ? isfin(a.matrix[i][j]) && fin(a.matrix[i][j]) == old(c9b_dp(a, 0, i, j)) && fin(a.matrix[i][j]) >= 0.0 : (w == 1 ? fin(a.matrix[i][j]) <= fin(a.maxscore) : (fin(a.matrix[i][j]) > 0.0 ==> (a.trace[i][j] == ALIGN_DIAG ==> fin(a.matrix[i][j]) == old(c9b_dp(a, 0, i-1, j-1) + c9b_s(a, i, j))) && (a.trace[i][j] == ALIGN_UP ==> i > 0 && fin(a.matrix[i][j]) == old(c9b_dp(a, 1, i, j))) && (a.trace[i][j] == ALIGN_LEFT ==> j > 0 && fin(a.matrix[i][j]) == old(c9b_dp(a, 2, i, j))))))
+// the same for the first n rows, the first n cells of column 0, the first n cells of row i (all under the hypothesis c9b_on)
+//@ pure func c9b_rows(a *pwaligner, w int, n int, l2 int) bool = old(c9b_on(a)) ==> forall i, j :: 0 <= i && i < n && 0 <= j && j < l2 ==> c9b_cell(a, w, i, j)
+//@ pure func c9b_col0(a *pwaligner, w int, n int) bool = old(c9b_on(a)) ==> forall i :: 0 <= i && i < n ==> c9b_cell(a, w, i, 0)
+//@ pure func c9b_rowp(a *pwaligner, w int, i int, n int) bool = old(c9b_on(a)) ==> forall j :: 0 <= j && j < n ==> c9b_cell(a, w, i, j)
+// maxa[j] after row r: the best gap along sequence 1 that may be extended into row r+1
+//@ pure func c9b_mav(a *pwaligner, r int, j int) real = old(r == 0 ? c9b_dp(a, 0, 0, j) + fin(a.gapopen) : c9b_dp(a, 1, r, j))
+//@ pure func c9b_maxa(a *pwaligner, r int, lo int, hi int) bool = old(c9b_on(a)) ==> forall j :: lo <= j && j < hi ==> isfin(a.maxa[j]) && fin(a.maxa[j]) == c9b_mav(a, r, j)
+// the running maximum: a finite number >= 0, attained in cell (maxi, maxj) as soon as it is positive
+//@ pure func c9b_best0(a *pwaligner) bool = old(c9b_on(a)) ==> isfin(a.maxscore) && fin(a.maxscore) >= 0.0
+//@ pure func c9b_best(a *pwaligner) bool = old(c9b_on(a)) && fin(a.maxscore) > 0.0 ==> isfin(a.matrix[a.maxi][a.maxj]) && fin(a.matrix[a.maxi][a.maxj]) == fin(a.maxscore)
+// the dynamic-programming rows and maxa live in separate memory
+//@ pure func c9b_sepma(a *pwaligner, l1 int) bool = forall i :: 0 <= i && i < l1 ==> base(a.matrix[i]) != base(a.maxa)
+// the index vectors are the matrix positions of the residues
+//@ pure func c9b_idx(a *pwaligner, idx1 []int, idx2 []int) bool = (forall k :: 0 <= k && k < len1(a) ==> idx1[k] == old(cpos(a, a.seq1, k))) && (forall k :: 0 <= k && k < len2(a) ==> idx2[k] == old(cpos(a, a.seq2, k)))
+
+//@ func (*pwaligner).initMatrix
+//@   props C09
+//@   float xreal
+//@   requires a != nil && 0 <= l1 && 0 <= l2
+//@   ensures matok(a, l1, l2) && fresh(a.matrix) && fresh(a.trace) && fresh(a.maxa)
+//@   ensures forall i :: 0 <= i && i < l1 ==> fresh(a.matrix[i]) && fresh(a.trace[i]) && allocated(a.matrix[i]) && allocated(a.trace[i])
+//@   ensures forall i, j :: 0 <= i && i < l1 && 0 <= j && j < l2 ==> a.trace[i][j] == 0 && isfin(a.matrix[i][j]) && fin(a.matrix[i][j]) == 0.0
+//@   ensures c9b_sepma(a, l1)
+//@   modifies a.matrix, a.trace, a.maxa
+//@   loop 1
+//@     invariant len(a.matrix) == l1 && len(a.trace) == l1 && len(a.maxa) == l2 && fresh(a.matrix) && fresh(a.trace) && fresh(a.maxa) && base(a.matrix) != base(a.trace) && allocated(a.maxa)
+//@     invariant forall k :: 0 <= k && k < $i ==> len(a.matrix[k]) == l2 && len(a.trace[k]) == l2 && fresh(a.matrix[k]) && fresh(a.trace[k]) && allocated(a.matrix[k]) && allocated(a.trace[k])
+//@     invariant forall k1, k2 :: 0 <= k1 && k1 < k2 && k2 < $i ==> base(a.matrix[k1]) != base(a.matrix[k2]) && base(a.trace[k1]) != base(a.trace[k2])
+//@     invariant forall k, j :: 0 <= k && k < $i && 0 <= j && j < l2 ==> a.trace[k][j] == 0 && isfin(a.matrix[k][j]) && fin(a.matrix[k][j]) == 0.0
+//@     invariant c9b_sepma(a, $i)
+//@     decreases l1 - $i
+
+//@ func (*pwaligner).fillMatrix_SW
+//@   props C09
+//@   float xreal
+//@   requires pwok(a)
+//@   ensures pwok(a)
+//@   ensures err == nil ==> alphaok1(a) && alphaok2(a)
+//@   ensures alphaok1(a) && alphaok2(a) && len1(a) > 0 && len2(a) > 0 ==> err == nil
+//@   ensures err == nil ==> matok(a, len1(a), len2(a)) && trok(a, len1(a), len2(a))
+//@   ensures err == nil ==> 0 <= a.maxi && a.maxi < len1(a) && 0 <= a.maxj && a.maxj < len2(a)
+//@   ensures err == nil && nogapkey(a) ==> nogap1(a) && nogap2(a)
+// SCORES (for a scheme of finite scores with gapextend <= 0):
+// every cell holds the value of the recurrence, every positive cell's trace names a term that attains it, no cell exceeds maxscore
+//@   ensures err == nil ==> c9b_rows(a, 0, len1(a), len2(a))
+//@   ensures err == nil ==> c9b_rows(a, 2, len1(a), len2(a))
+//@   ensures err == nil ==> c9b_rows(a, 1, len1(a), len2(a))
+// maxscore is the value of cell (maxi, maxj): with the clause above, the maximum of the matrix, at a position of that maximum
+//@   ensures err == nil && old(c9b_on(a)) ==> isfin(a.maxscore) && isfin(a.matrix[a.maxi][a.maxj]) && fin(a.matrix[a.maxi][a.maxj]) == fin(a.maxscore)
+//@   modifies a.matrix, a.trace, a.maxa, a.maxscore, a.maxi, a.maxj
+//@   loop 1
+//@     invariant err == nil && pwok(a) && l1 == len1(a) && l2 == len2(a) && matok(a, l1, l2)
+//@     invariant len(indexseq1) == l1 && len(indexseq2) == l2 && idxok(a, indexseq1, l1) && idxok(a, indexseq2, l2) && sep(a, indexseq1, l1) && sep(a, indexseq2, l1)
+//@     invariant 0 <= j && trrow0(a, j)
+//@     invariant c9b_sepma(a, l1) && c9b_idx(a, indexseq1, indexseq2)
+//@     invariant c9b_rowp(a, 0, 0, j)
+//@     invariant c9b_rowp(a, 1, 0, j)
+//@     invariant c9b_rowp(a, 2, 0, j)
+//@     invariant c9b_maxa(a, 0, 0, j)
+//@     invariant old(c9b_on(a)) ==> isfin(bgap) && (j >= 2 ==> fin(bgap) == old(c9b_dp(a, 2, 0, j-1)))
+//@     invariant c9b_best0(a)
+//@     invariant c9b_best(a)
+//@     invariant old(c9b_on(a)) && fin(a.maxscore) > 0.0 ==> a.maxi == 0 && a.maxj < j
+//@     decreases l2 - j
+//@   loop 2
+//@     invariant err == nil && pwok(a) && l1 == len1(a) && l2 == len2(a) && matok(a, l1, l2)
+//@     invariant len(indexseq1) == l1 && len(indexseq2) == l2 && idxok(a, indexseq1, l1) && idxok(a, indexseq2, l2) && sep(a, indexseq1, l1) && sep(a, indexseq2, l1)
+//@     invariant 0 <= i && trrow0(a, l2) && trcol0(a, i)
+//@     invariant c9b_sepma(a, l1) && c9b_idx(a, indexseq1, indexseq2)
+//@     invariant c9b_rowp(a, 0, 0, l2)
+//@     invariant c9b_rowp(a, 1, 0, l2)
+//@     invariant c9b_rowp(a, 2, 0, l2)
+//@     invariant c9b_col0(a, 0, i)
+//@     invariant c9b_col0(a, 1, i)
+//@     invariant c9b_col0(a, 2, i)
+//@     invariant c9b_maxa(a, 0, 0, l2)
+//@     invariant old(c9b_on(a)) ==> isfin(bgap) && (i >= 2 ==> fin(bgap) == old(c9b_dp(a, 1, i-1, 0)))
+// (iteration 0 rewrites cell (0,0) with the value it already has: the ground term makes the solver unfold the recurrence there)
+//@     invariant old(c9b_on(a)) ==> fin(a.matrix[0][0]) == old(c9b_dp(a, 0, 0, 0))
+//@     invariant c9b_best0(a)
+//@     invariant c9b_best(a)
+//@     invariant old(c9b_on(a)) && fin(a.maxscore) > 0.0 ==> a.maxi == 0 || (a.maxj == 0 && a.maxi < i)
+//@     decreases l1 - i
+//@   loop 3
+//@     invariant err == nil && pwok(a) && l1 == len1(a) && l2 == len2(a) && matok(a, l1, l2)
+//@     invariant len(indexseq1) == l1 && len(indexseq2) == l2 && idxok(a, indexseq1, l1) && idxok(a, indexseq2, l2) && sep(a, indexseq1, l1) && sep(a, indexseq2, l1)
+//@     invariant 1 <= i && trrow0(a, l2) && trcol0(a, l1) && trin(a, i, l2)
+//@     invariant c9b_sepma(a, l1) && c9b_idx(a, indexseq1, indexseq2)
+//@     invariant i <= l1
+//@     invariant c9b_rows(a, 0, i, l2)
+//@     invariant c9b_rows(a, 1, i, l2)
+//@     invariant c9b_rows(a, 2, i, l2)
+//@     invariant c9b_col0(a, 0, l1)
+//@     invariant c9b_col0(a, 1, l1)
+//@     invariant c9b_col0(a, 2, l1)
+//@     invariant c9b_maxa(a, i-1, 1, l2)
+//@     invariant c9b_best0(a)
+//@     invariant c9b_best(a)
+//@     invariant old(c9b_on(a)) && fin(a.maxscore) > 0.0 ==> a.maxi == 0 || a.maxj == 0 || a.maxi < i
+//@     decreases l1 - i
+//@   loop 4
+//@     invariant err == nil && pwok(a) && l1 == len1(a) && l2 == len2(a) && matok(a, l1, l2)
+//@     invariant len(indexseq1) == l1 && len(indexseq2) == l2 && idxok(a, indexseq1, l1) && idxok(a, indexseq2, l2) && sep(a, indexseq1, l1) && sep(a, indexseq2, l1)
+//@     invariant 1 <= i && i < l1 && 1 <= j && base(a.trace[0]) != base(a.trace[i])
+//@     invariant trrow0(a, l2)
+//@     invariant trcol0(a, l1)
+//@     invariant trin(a, i, l2)
+//@     invariant forall jj :: 1 <= jj && jj < j ==> a.trace[i][jj] == ALIGN_UP || a.trace[i][jj] == ALIGN_LEFT || a.trace[i][jj] == ALIGN_DIAG
+//@     invariant c9b_sepma(a, l1) && c9b_idx(a, indexseq1, indexseq2)
+//@     invariant j <= l2
+//@     invariant c9b_rows(a, 0, i, l2)
+//@     invariant c9b_rows(a, 1, i, l2)
+//@     invariant c9b_rows(a, 2, i, l2)
+//@     invariant c9b_col0(a, 0, l1)
+//@     invariant c9b_col0(a, 1, l1)
+//@     invariant c9b_col0(a, 2, l1)
+//@     invariant c9b_rowp(a, 0, i, j)
+//@     invariant c9b_rowp(a, 1, i, j)
+//@     invariant c9b_rowp(a, 2, i, j)
+//@     invariant c9b_maxa(a, i, 1, j)
+//@     invariant c9b_maxa(a, i-1, j, l2)
+//@     invariant old(c9b_on(a)) ==> isfin(bx) && fin(bx) == (j == 1 ? old(c9b_dp(a, 0, i, 0) + fin(a.gapopen) + fin(a.gapextend)) : old(c9b_dp(a, 2, i, j-1)))
+//@     invariant c9b_best0(a)
+//@     invariant c9b_best(a)
+//@     invariant old(c9b_on(a)) && fin(a.maxscore) > 0.0 ==> a.maxi == 0 || a.maxj == 0 || a.maxi < i || (a.maxi == i && a.maxj < j)
+//@     decreases l2 - j
+
+// ---- backTrack_SW: score consistency of the moves ----
+// the state fillMatrix_SW leaves, read in the state in which backTrack_SW starts: every cell holds the value of the
+// recurrence and the trace of a positive cell names a term that attains it (fillMatrix_SW proves exactly this about
+// ITS final state; the link between the two states - the recurrence only reads the sequences and the scheme, which nobody
+// modifies in between - is not mechanised: there are no frame axioms for recursive spec functions)
+//@ pure func c9b_rcell(a *pwaligner, i int, j int) bool = isfin(a.matrix[i][j]) && fin(a.matrix[i][j]) == c9b_dp(a, 0, i, j) && (fin(a.matrix[i][j]) > 0.0 ==> (a.trace[i][j] == ALIGN_DIAG ==> fin(a.matrix[i][j]) == c9b_dp(a, 0, i-1, j-1) + c9b_s(a, i, j)) && (a.trace[i][j] == ALIGN_UP ==> i > 0 && fin(a.matrix[i][j]) == c9b_dp(a, 1, i, j)) && (a.trace[i][j] == ALIGN_LEFT ==> j > 0 && fin(a.matrix[i][j]) == c9b_dp(a, 2, i, j)))
+//@ pure func c9b_rec(a *pwaligner) bool = c9b_on(a) && (forall i, j :: 0 <= i && i < len1(a) && 0 <= j && j < len2(a) ==> c9b_rcell(a, i, j))
+
+//@ func (*pwaligner).backTrack_SW
+//@   props C09
+//@   float xreal
+//@   requires filled(a) && nogap1(a) && nogap2(a)
+//@   ensures len(a.seq1ali) == len(a.seq2ali) && len(a.alistr) == len(a.seq1ali) && len(a.seq1ali) >= 1
+// (on the unchanged code the next clause fails: the counters are never reset, defect 3)
+//@   ensures counts(a, len(a.seq1ali))
+//@   ensures colsok(a.seq1ali, a.seq2ali, len(a.seq1ali))
+//@   ensures a.end1 == old(a.maxi) && a.end2 == old(a.maxj) && 0 <= a.start1 && a.start1 <= a.end1 + 1 && 0 <= a.start2 && a.start2 <= a.end2 + 1
+//@   ensures filled(a) && nogap1(a) && nogap2(a) && bufs(a.seq1ali, a.seq2ali, a.alistr)
+//@   ensures a.maxi == old(a.maxi) && a.maxj == old(a.maxj)
+// the trace-back stops on the border or on the first cell that is not positive (Smith-Waterman mode)
+//@   ensures a.algo != ALIGN_ALGO_ATG ==> a.start1 == 0 || a.start2 == 0 || isninf(a.matrix[a.start1-1][a.start2-1]) || (isfin(a.matrix[a.start1-1][a.start2-1]) && fin(a.matrix[a.start1-1][a.start2-1]) <= 0.0)
+//@   modifies a.end1, a.end2, a.start1, a.start2, a.length, a.nbgaps, a.nbmatches, a.nbmismatches, a.seq1ali, a.seq2ali, a.alistr
+//@   loop 1
+//@     invariant filled(a) && nogap1(a) && nogap2(a) && a.end1 == a.maxi && a.end2 == a.maxj
+//@     invariant -1 <= i && i <= a.end1 && -1 <= j && j <= a.end2 && bufs(seq1, seq2, alistr)
+//@     invariant cnt(a, len(seq1), i, j, entry(a.nbmatches), entry(a.nbmismatches), entry(a.nbgaps), entry(a.length))
+//@     invariant colsok(seq1, seq2, len(seq1))
+//@     invariant len(seq1) == 0 ==> i == a.end1 && j == a.end2
+//@     decreases i + j + 2
+//@   loop 2
+//@     invariant 0 <= ngaps && ngaps < i
+// no gap shorter than ngaps+1 explains the cell: its value is the best gap ending ngaps rows higher, extended ngaps times
+//@     invariant old(c9b_rec(a)) && fin(a.matrix[i][j]) > 0.0 ==> fin(a.matrix[i][j]) == old(c9b_dp(a, 1, i-ngaps, j)) + real(ngaps) * fin(a.gapextend)
+//@     decreases i - ngaps
+//@   loop 3
+//@     invariant filled(a) && nogap1(a) && nogap2(a) && a.end1 == a.maxi && a.end2 == a.maxj
+//@     invariant 0 <= g && g <= ngaps && 1 <= ngaps && ngaps <= entry(i) && i == entry(i) - g && entry(i) <= a.end1 && 0 <= j && j <= a.end2 && bufs(seq1, seq2, alistr)
+//@     invariant len(seq1) == entry(len(seq1)) + g
+//@     invariant a.nbgaps == entry(a.nbgaps) + g && a.length == entry(a.length) + g
+//@     invariant colsok(seq1, seq2, len(seq1))
+// SCORE of the move: the ngaps gap columns (open + (ngaps-1) extend) account exactly for the drop of the cell value
+//@     invariant old(c9b_rec(a)) && fin(a.matrix[entry(i)][j]) > 0.0 ==> fin(a.matrix[entry(i)][j]) == fin(a.matrix[entry(i)-ngaps][j]) + fin(a.gapopen) + real(ngaps-1) * fin(a.gapextend)
+//@     decreases ngaps - g
+//@   loop 4
+//@     invariant 0 <= ngaps && ngaps < j
+//@     invariant old(c9b_rec(a)) && fin(a.matrix[i][j]) > 0.0 ==> fin(a.matrix[i][j]) == old(c9b_dp(a, 2, i, j-ngaps)) + real(ngaps) * fin(a.gapextend)
+//@     decreases j - ngaps
+//@   loop 5
+//@     invariant filled(a) && nogap1(a) && nogap2(a) && a.end1 == a.maxi && a.end2 == a.maxj
+//@     invariant 0 <= g && g <= ngaps && 1 <= ngaps && ngaps <= entry(j) && j == entry(j) - g && entry(j) <= a.end2 && 0 <= i && i <= a.end1 && bufs(seq1, seq2, alistr)
+//@     invariant len(seq1) == entry(len(seq1)) + g
+//@     invariant a.nbgaps == entry(a.nbgaps) + g && a.length == entry(a.length) + g
+//@     invariant colsok(seq1, seq2, len(seq1))
+//@     invariant old(c9b_rec(a)) && fin(a.matrix[i][entry(j)]) > 0.0 ==> fin(a.matrix[i][entry(j)]) == fin(a.matrix[i][entry(j)-ngaps]) + fin(a.gapopen) + real(ngaps-1) * fin(a.gapextend)
+//@     decreases ngaps - g
